@@ -21,12 +21,12 @@ META = {
              "random structured pairs up to 10^5 elements; wrapper None/copy conventions; multi-way union of 0-5 "
              "arrays; in-situ calls from cube walks and set updates. Non-trivial: both operands non-empty and neither "
              "contained in the other (pairs), >=2 non-empty inputs sharing an element (multi-way); distinct by content"),
-    "require": {"quick": ["kernel_calls", "wrapper_calls", "many_calls", "insitu_kernel_calls", "many:chain",
+    "require": {"quick": ["kernel_calls", "wrapper_calls", "many_calls", "insitu_workloads", "many:chain",
                           "presentation:strided", "presentation:view_in_buffer", "class:lopsided", "class:lopsided>32768",
                           "class:views_of_one_buffer", "many:more_than_16_arrays",
                           "class:left_empty", "class:right_empty", "class:touching", "class:nested",
                           "class:interleaved", "class:identical"],
-                "thorough": ["kernel_calls", "wrapper_calls", "many_calls", "insitu_kernel_calls", "long_pairs"]},
+                "thorough": ["kernel_calls", "wrapper_calls", "many_calls", "insitu_workloads", "long_pairs"]},
     "exhaustive": {"quick": "all 16384 ordered pairs of subsets of a 7-element universe x 4 embeddings x 6 entry points",
                    "thorough": "all 1048576 ordered pairs of subsets of a 10-element universe x 4 embeddings x 6 entry points"},
     "assumptions": ["inputs satisfy the kernels' precondition (strictly increasing uint32); in-situ calls whose "
@@ -368,6 +368,7 @@ def insitu(ctx, n, replay_case=None):
                 wl = {"cube": gen.cube_case(rng, min_dims=2, max_dims=4, max_axes=1, n=gen.pick(rng, [8, 20, 60, 200])),
                       "upd_seed": int(rng.integers(0, 2 ** 31))}
             current["case"] = wl
+            ctx.count("insitu_workloads")
             dims = gen.cube_dims(wl["cube"])
             try:
                 catii.ccube(dims, interacting_shape=wl["cube"]["shape"]).count()
